@@ -572,6 +572,17 @@ def build_cell(am, cell):
                      box=am.Box(vects=cell['vects'].copy()), scale=True, symbols=list(cell['symbols']))
 
 
+def sextic_gap(Cij, vects, xi, hkl, m, n):
+    """(smallest distance between two Stroh eigenvalues of the upper half plane, smallest imaginary part) for the
+    elastic problem of this orientation, from the C12 oracle.  Small values = (near-)degenerate problem that the
+    Stroh solver legitimately refuses (C12 excludes it: gap >= 0.05, Im p >= 0.08)."""
+    from ..oracle import c12_volterra as V
+    m_, n_ = OC.axis(m), OC.axis(n)
+    T = OC.dislocation_rotation(np.asarray(vects, float), OC.as3(xi), OC.as3(hkl, plane=True), m_, n_)
+    c4 = V.rotate4(V.c4_from_voigt(np.asarray(Cij, float)), T)
+    return V.root_gap(c4, m_, n_)
+
+
 def make_dislocation(ctx, am, cell, sc, Cd, mn, init_kw, as_vectors=False):
     rec = ctx.rec
     ucell = build_cell(am, cell)
@@ -585,8 +596,18 @@ def make_dislocation(ctx, am, cell, sc, Cd, mn, init_kw, as_vectors=False):
     except ValueError as e:
         hexc = cell['family'] == 'hcp' and np.linalg.norm(np.cross(OC.unit(OC.cart(OC.as3(sc['xi']), cell['vects'])), [0, 0, 1.0])) < 1e-9
         may_be_oblique = tuple(mn) != ('y', 'z') and (sc.get('character') not in ('edge', 'screw') or '{123}' in sc['system'] or cell['family'] == 'hcp')
+        gap = (1.0, 1.0)
+        if 'isotropic' in str(e):
+            try:
+                gap = sextic_gap(C.Cij, cell['vects'], sc['xi'], sc['hkl'], *mn)
+            except Exception:
+                pass
         if hexc and 'isotropic' in str(e):
             rec.refusal('init:hexagonal-line-along-c:no-elastic-solution')     # Stroh degenerate, isotropic solver refuses: C12's domain
+        elif 'isotropic' in str(e) and (gap[0] < 0.05 or gap[1] < 0.08):
+            # accidental near-degeneracy of the sextic for this random stiffness and line (first seen in a thorough run:
+            # hcp prismatic<a>, mixed line): the Stroh solver refuses, which is C12's exclusion, not a C13 matter
+            rec.refusal('init:near-degenerate-sextic:no-elastic-solution')
         elif may_be_oblique and 'isotropic' not in str(e):
             # non-default axes + a line/plane for which no mutually orthogonal lattice vectors need exist: a refusal is
             # the repaired behaviour for what is otherwise the known 'orientation:oblique' finding
